@@ -108,7 +108,7 @@ def _msgs() -> Any:
         if fault == "relay":
             kw["relay_state"] = BatteryRelayState.OPENED
         if fault == "cap":
-            kw["capacity"] = math.nan
+            kw["capacity"] = float("nan")
         if fault == "crit":
             kw["errors"] = [BatteryError(code=BatteryErrorCode.UNSPECIFIED, level=ErrorLevel.CRITICAL, message="x")]
         if fault == "warn":
